@@ -1,5 +1,5 @@
 (* Check/StopBefore.v — FROZEN copy of the blockpoints table as generated from /repo/block/*.go BEFORE the repairs
-   ca974a2 (start-up sleep), c53a06a (sendError) and 03584e7 (event sends); kept so that the old defects stay
+   ca974a2 (start-up sleep), 0d6bd4f (sendError) and 4176904 (event sends); kept so that the old defects stay
    recorded as kernel-checked Examples (the before_the_repair Examples of Props/C13.v).  Never regenerated. *)
 From Coq Require Import String List Bool.
 Import ListNotations.
